@@ -108,7 +108,7 @@ func runFlip(r *common.Run) {
 	r.Assume("all-zero header CRC escape: snapshotio.go validateHeader accepts a header record unchecked when the 4-byte CRC slot behind it reads zero, and SnapshotWriter.saveHeader (regular snapshots) leaves that slot zero (its CRC goes into the HeaderChecksum field which nothing reads); " +
 		"so for such files - and for a flip that makes the slot read zero - a header bit flip that alters what is loaded (in practice: CompressionType of a Snappy file cleared, the compressed stream is handed over) is counted in unprotected_header_altered_bytes_loaded and NOT judged; " +
 		"headers written by the streaming path (ChunkWriter.getHeader fills the slot) are judged strictly, and payload / block CRC flips are judged strictly for every file")
-	nCases := r.Pick(320, 4000)
+	nCases := r.Pick(320, 3000)
 	for _, c := range myCases(r, nCases) {
 		rng := r.Rand("flip", c)
 		big := c%5 == 4
